@@ -22,5 +22,6 @@ func controlsC07() []Control {
 		{Name: "close operation does not record the closed status", Expect: "R5", Mutate: replaceIn("(*tableEngine).CloseTable", "\tte.table.State.Status = TableStateStatus_TableClosed\n", "", 0)},
 		{Name: "release operation records nothing", Expect: "R5", Mutate: replaceIn("(*tableEngine).ReleaseTable", "te.isReleased = true", "te.isReleased = false", 0)},
 		{Name: "closing no longer releases", Expect: "R5", Mutate: replaceIn("(*tableEngine).CloseTable", "\tte.ReleaseTable()\n", "", 0)},
+		{Name: "seated-in flag excluded from the JSON clone", Expect: "R7", Mutate: replaceInFile("/table.go", "`json:\"is_in\"`", "`json:\"-\"`")},
 	}
 }
